@@ -170,6 +170,11 @@ def build(hist, n, idmap=None):
                 tgt, kw = VARIANTS[w[2]]
                 sc.append({'op': 'call', 'var': w[0], 'method': 'call', 'args': [99], 'timeout': 10})
                 exp.append(('ret', [w[2], kw['tag'], 99, kw['exp']], 'worker-does-not-run-the-context-target-with-its-defaults'))
+                # a call overriding a default of the context, then one which does not: the defaults are the context's again
+                sc.append({'op': 'call', 'var': w[0], 'method': 'call', 'args': [98], 'kwargs': {'exp': 77}, 'timeout': 10})
+                exp.append(('ret', [w[2], kw['tag'], 98, 77], 'per-call-override-of-a-context-default-ignored'))
+                sc.append({'op': 'call', 'var': w[0], 'method': 'call', 'args': [97], 'timeout': 10})
+                exp.append(('ret', [w[2], kw['tag'], 97, kw['exp']], 'context-defaults-not-pristine-after-an-overriding-call'))
             else:
                 dead = workers[-1]
                 sc.append({'op': 'call', 'var': dead[0], 'method': 'enqueue', 'args': [1]})
